@@ -8,13 +8,17 @@ MATCHERS = {}
 
 
 def run(tier, acc):
-    acc.rule = ("TLC enumerates every CLVM term of <= MaxLen prefix tokens over {nil, paths 1 2 3 5 7, quoted constants, "
+    acc.rule = ("ClassicOpt.tla transcribes the eight rewrite rules of optimize_sexp_ and their driver loop; TLC asserts on that model, for every "
+                "enumerated term and environment, that a term returning v is accepted and its rewritten form returns v, and the model's answer "
+                "is compared term for term with the real optimiser's (drift). TLC enumerates every CLVM term of <= MaxLen prefix tokens over {nil, paths 1 2 3 5 7, quoted constants, "
                 "a i c f r l = +} x 4 environments and predicts the value with Clvm!Eval; the harness runs the real "
                 "optimize_sexp on each term and evaluates input and output with clvmr; non-trivial = distinct "
                 "(term, environment) pairs on which the optimiser changed the term")
     acc.assumptions = ["clvmr is the consensus evaluator", "Clvm.tla must agree with clvmr on every vector (SPEC-ERROR otherwise)"]
     n = 4 if tier == "quick" else 5
-    cc.gen_and_replay(acc, "opt_clean", n, "opt", "clean", "C04")
+    # MC_OptGen = the term generator + ClassicOpt.tla: TLC asserts C04 on the rule-level model of the optimiser for every
+    # enumerated (term, environment) and prints the model's answer, which the harness compares with optimize_sexp's (drift)
+    cc.gen_and_replay(acc, "opt_clean", n, "opt", "clean", "C04", module="MC_OptGen", extra="OptCheck")
     cc.drive_and_validate(acc, 3000 if tier == 'quick' else 60000, 'C04')
     acc.exhaustive = True
 
